@@ -1,6 +1,6 @@
 (* One entry point for the correspondence harness: run_line parses a case, runs the model, prints the answer. *)
 From Coq Require Import List Ascii String Bool Arith ZArith.
-From SV Require Import Lib.Str Lib.Sexp Model.Types Model.Naming Model.Discover Model.Api Model.Back Model.Layout Model.FrontSmall Model.Doc Spec.Sds Driver.Codec Driver.ApiCodec.
+From SV Require Import Lib.Str Lib.Sexp Model.Types Model.Naming Model.Discover Model.Api Model.Back Model.Layout Model.FrontSmall Model.Doc Spec.Sds Model.View Model.Front Driver.Codec Driver.ApiCodec Driver.ViewCodec.
 Import ListNotations.
 
 Definition bad : sexp := L [T"bad-case"].
@@ -70,6 +70,8 @@ Definition run_case (x : sexp) : sexp :=
         | Some nc', Some a, Some fs => sx_of_back (back_run a nc' fs)
         | _, _, _ => bad end
       | _ => bad end
+    else if tag_is "front" cmd then
+      match args with [v] => run_front v | _ => bad end
     else if tag_is "type_string" cmd then
       match args with
       | [nc; ax; t] =>
